@@ -69,6 +69,10 @@ def main(argv):
     ctx.t0 = t0
     ctx.extra["extraction"] = {c: {"seconds": round(res[c][1], 2), "cached": res[c][2]} for c in configs}
     ctx.extra["tree_hash"] = extract.tree_hash(extract.repo_root())
+    inl = sorted({n for c in configs for n in crates[c].inlined})
+    if inl:
+        print("note: private helper(s) not present in the pinned tree were inlined at their call sites before the rules ran: %s" % ", ".join(inl))
+        ctx.extra["inlined_helpers"] = inl
     for c in configs:
         mod.run(ctx, crates[c])
     if tier == "thorough":
@@ -76,4 +80,8 @@ def main(argv):
         mutants.run_corpus(ctx, prop)
         from . import equiv
         equiv.run_all(ctx, prop)
+        try:
+            extract.prune_cache([extract.tree_hash(extract.repo_root())], max_keep=400)
+        except Exception:
+            pass
     return framework.finish(ctx, mod.EXPLANATION, mod.UNDECIDED, seed)
